@@ -19,7 +19,36 @@ NOT_DECIDED = "absence of double destruction / use-after-destroy under all inter
 ZC = 'iceoryx2_cal::zero_copy_connection::common::details::'
 
 
+def removed_once(F, R):
+    """One teardown removes the name of the connection's shared memory ONCE.  In iceoryx2-cal a concept object does not unlink its name
+    itself when it is dropped: it sets the ownership of the posix object it wraps and that object's own Drop unlinks (under
+    has_ownership()).  A second, explicit removal in a cal-level Drop leaves a window between the two unlinks in which a new port can
+    create the connection afresh - the second unlink then destroys a resource a port is attached to.  The name-removal primitives are
+    called only by `NamedConceptMgmt::remove_cfg` (forced removal by name) and by the posix objects themselves."""
+    n = 0
+    for s_ in F.callers_of(r'^iceoryx2_bb_posix::shared_memory::SharedMemory::remove$|^iceoryx2_bb_posix::file::File::remove$'):
+        g = s_.fn
+        if g.crate != 'iceoryx2_cal':
+            continue
+        n += 1
+        root = g
+        while root.kind == 'closure' and root.parent and F.fn_opt(root.parent) is not None:
+            root = F.fn_opt(root.parent)
+        in_drop = bool(re.search(r' as core::ops::drop::Drop>::drop$', root.id))
+        R.ob('WHO-MAY-CALL', 'WHO-MAY-CALL::%s::explicit-name-removal-not-in-Drop' % fnkey(g), not in_drop, '%s is called from %s; a Drop of an iceoryx2-cal concept leaves the unlink to the owned posix object (ownership flag), forced removal goes through remove_cfg' % (core.short(s_.callee), 'a Drop implementation' if in_drop else root.id.rsplit('::', 1)[-1]), s_.where, g)
+    R.floor('explicit name removals in iceoryx2-cal', n, 4)
+    # the posix shared memory itself unlinks in exactly one place of its Drop, under has_ownership()
+    d = F.find_fns(r'^<iceoryx2_bb_posix::shared_memory::SharedMemory as core::ops::drop::Drop>::drop$')
+    if len(d) != 1:
+        R.missing('Drop for posix SharedMemory')
+    else:
+        rm = d[0].calls(r'SharedMemory::remove$')
+        conds = lib.path_conds(d[0], rm[0], F) if rm else []
+        R.ob('ONLY-UNDER', 'ONLY-UNDER::%s::unlink-once-under-ownership' % fnkey(d[0]), len(rm) == 1 and any('has_ownership' in c and not c.startswith('!') for c in conds), 'SharedMemory::drop unlinks at %d site(s), guarded by %s' % (len(rm), [c[:60] for c in conds][:3]), rm[0].where if rm else d[0].file, d[0])
+
+
 def check(F, R, tier):
+    removed_once(F, R)
     cands = F.find_fns(r'^' + re.escape(ZC) + r'Builder::<.*>::create_or_open_shm$')
     if len(cands) != 1:
         R.missing('Builder::create_or_open_shm')
@@ -30,18 +59,22 @@ def check(F, R, tier):
     oks = f.ok_exit_sites()
     dom(R, f, rp, oks, 'reserve_port<Ok(storage)', 'a connection handle exists only with a reserved role')
     # error exits after a successful reservation
-    errs = f.err_exit_sites()
+    # refusal sources: every `Err(..)` that is built in the body (also in the body of a helper that was extracted from it and is
+    # presented inlined) and every `?` that forwards the error of a call
+    errs = [s_ for s_ in f.sites if s_.i != 'T' and s_.node[0] == 'a' and s_.node[2][0] == 'agg' and s_.node[2][1][0] == 'adt' and s_.node[2][1][1] == 'core::result::Result' and s_.node[2][1][2] == 'Err']
+    errs += [e for e in f.err_exit_sites() if e.is_call]
     n = 0
     for e in errs:
         if not rp or not f.dominates(rp[0], e):
             continue
-        # the `?` on reserve_port's own result
         if e.is_call and e.args:
             r = f.prov_operand(e.args[0]).root
-            if r[0] == 'call' and r[1].args and re.search(r'::branch$', r[1].callee or ''):
-                r2 = f.prov_operand(r[1].args[0]).root
-                if r2[0] == 'call' and r2[1].key() == rp[0].key():
-                    continue
+            if not (r[0] == 'call' and r[1].args and re.search(r'::branch$', r[1].callee or '')):
+                continue
+            r2 = f.prov_operand(r[1].args[0]).root
+            # the `?` on reserve_port's own result; a `?` on a locally built result is judged where its Err is built
+            if r2[0] != 'call' or r2[1].key() == rp[0].key():
+                continue
         n += 1
         variant = None
         if e.i != 'T':
